@@ -79,6 +79,12 @@ Theorem T16_oracle_sound : forall r h h', step_prop_ok r h h' = true -> Spec r h
 Proof. exact step_prop_ok_sound. Qed.
 Print Assumptions T16_oracle_sound.
 
+(* ... and so is the whole-list oracle run on Headers.ModifyRequest / ModifyResponse outputs. *)
+Theorem T16_list_oracle_sound : forall c, lcase_prop_ok c = true ->
+  Specs (l_rules c) (l_start c) (l_final_req c) /\ Specs (l_rules c) (l_start c) (l_final_resp c).
+Proof. exact lcase_prop_ok_sound. Qed.
+Print Assumptions T16_list_oracle_sound.
+
 (* Non-vacuity: a concrete non-trivial rule list and map meet the hypotheses. *)
 Example T16_example :
   let h := [(b "Foo", [b "v1"]); (b "Fox", [b "x"]); (b "Bar", [b "y"])] in
